@@ -14,10 +14,19 @@ openf = [f for f in k if f['status'] == 'open']
 tbl = ["| property | commit | what failed |", "|---|---|---|"] + ["| %s | %s | %s |" % (f['property'], f['commit'], f['what'].replace('|', '/')) for f in sorted(fixed, key=lambda f: (f['property'], f['commit']))]
 otbl = ["| id | property | what fails (recorded, not repaired) |", "|---|---|---|"] + ["| %s | %s | %s |" % (f['id'], f['property'], f['what'].replace('|', '/')[:400]) for f in sorted(openf, key=lambda f: f['id'])]
 seeded = open('/verif/seeded/INDEX.md').read().split('\n', 2)[2] if glob.glob('/verif/seeded/INDEX.md') else ''
+xparts = [open(f).read().strip() for f in sorted(glob.glob('/verif/pending/DESIGN-X*.md'))]
 block = "\n".join([BEGIN, "", "#### Repaired defects (%d `fix:` commits in /repo)" % len(fixed), "", *tbl, "",
                    "#### Open known findings (%d)" % len(openf), "", *otbl, "",
                    "#### Seeded changes and the checks that catch them", "", seeded.strip(), "",
-                   "### 12.5 Per-property: as built", "", "\n\n".join(parts), "", END])
+                   "### 12.5 Per-property: as built", "", "\n\n".join(parts), "",
+                   "### 12.6 Specification growth beyond the listed properties (extension modules)", "",
+                   "These modules follow the same architecture (`python3 tools/check.py X01 --tier quick` …) but belong to no listed "
+                   "property, so they are not registered in MANIFEST.json; they are run by `tools/run_extensions.sh`. Defects they found were "
+                   "repaired with `fix:` commits like any other (known_findings.json, property ids X..), except the `format_to` scanner "
+                   "(X12): the public `format_to` path never worked (dangling `fmt_buffer` pointer, wrong brace escapes, surplus arguments "
+                   "appended); the repair is a ~120-line rewrite (`build/fixes/X12-format-to-single-pass-scanner.patch` is kept as a "
+                   "proposal) and was not applied, so `check.py X12` reports it.", "",
+                   "\n\n".join(xparts), "", END])
 if BEGIN in s:
     s = re.sub(re.escape(BEGIN) + r".*?" + re.escape(END), lambda m: block, s, flags=re.S)
 else:
